@@ -193,6 +193,50 @@ def body_roundtrip(case):
     return labels
 
 
+OTHER_ENVS = [
+    # a process without a UTF-8 locale (cron job, minimal container, batch node): Python's locale encoding is ASCII
+    {"LC_ALL": "C", "LANG": "C", "PYTHONUTF8": "0", "PYTHONCOERCECLOCALE": "0"},
+    {"LC_ALL": "POSIX", "LANG": "POSIX", "PYTHONUTF8": "0", "PYTHONCOERCECLOCALE": "0"},
+    # ... and the opposite override
+    {"LC_ALL": "C", "PYTHONUTF8": "1"},
+]
+
+
+def body_other_env(case):
+    """The round trip of the generated configurations in a fresh interpreter whose environment differs (locale)."""
+    import json
+    import subprocess
+    import sys
+
+    env = dict(os.environ)
+    for k in ("LC_ALL", "LANG", "LC_CTYPE", "PYTHONUTF8", "PYTHONCOERCECLOCALE", "PYTHONIOENCODING"):
+        env.pop(k, None)
+    env.update(OTHER_ENVS[case["env"] % len(OTHER_ENVS)])
+    cases = [{"config": c} for c in case["configs"]]
+    r = subprocess.run([sys.executable, "-m", "nssverif.child", "nssverif.props.c15", "roundtrip"], input=json.dumps(cases), env=env, capture_output=True, text=True, timeout=1800)
+    line = next((ln for ln in r.stdout.splitlines() if ln.startswith("NSSVERIF-CHILD ")), None)
+    if line is None:
+        raise HarnessError(f"the child interpreter produced no result (exit {r.returncode}): {r.stderr[-800:]}")
+    res = json.loads(line[len("NSSVERIF-CHILD "):])
+    labels = {"env_%d" % (case["env"] % len(OTHER_ENVS))}
+    for c, detail in zip(case["configs"], res):
+        if detail is not None and detail.startswith("HARNESS: "):
+            raise HarnessError(detail)
+        if detail is not None:
+            raise Violation(f"in a process with the environment {OTHER_ENVS[case['env'] % len(OTHER_ENVS)]}: {detail}", replay_case={"configs": [c], "env": case["env"]})
+        if any(isinstance(v, str) and any(ord(ch) > 127 for ch in v) for v in flat_values(c)):
+            labels.add("non_ascii_string")
+    return labels
+
+
+def flat_values(d):
+    for v in d.values():
+        if isinstance(v, dict):
+            yield from flat_values(v)
+        else:
+            yield v
+
+
 def body_cli(case):
     from click.testing import CliRunner
 
@@ -546,6 +590,15 @@ SUBCHECKS = [
         lambda labels: "accept" in labels or "reject" in labels,
         {"quick": 500, "thorough": 20000},
         doc="three-way month reference: must-accept / must-reject / don't-care",
+    ),
+    SubCheck(
+        "roundtrip_other_locale",
+        st.fixed_dictionaries({"configs": st.lists(config_dict(), min_size=4, max_size=8), "env": st.integers(0, 2)}),
+        body_other_env,
+        lambda labels: "non_ascii_string" in labels,
+        {"quick": 9, "thorough": 200},
+        doc="the TOML round trip of generated configurations in a fresh interpreter without a UTF-8 locale (LC_ALL=C / POSIX, UTF-8 mode off) and with UTF-8 mode forced: files written by create_toml do not depend on the process environment",
+        shrink=False,
     ),
     SubCheck(
         "toml_fuzz",
